@@ -3,6 +3,7 @@ package c0304
 import (
 	"fmt"
 	"reflect"
+	"strings"
 	"time"
 
 	"verifharness/explore"
@@ -35,6 +36,7 @@ func schemas3(tier string) []univ.SNode {
 		{Schema: ref.Array(ref.Union(ref.Prim("int"), ref.Prim("long"))), Chain: "array>union[int,long]", Depth: 1},
 	}
 	s = append(s, extra...)
+	s = append(s, univ.SNode{Schema: ref.Prim("string"), Chain: "compressible-block"})
 	memo3[tier] = s
 	return s
 }
@@ -75,7 +77,33 @@ func datums3(n univ.SNode) []ref.Datum {
 
 const sentinel = 0x5EED
 
+// runCompressible: blocks of thousands of identical records (compression ratios far above 32:1) are legal too.
+func runCompressible(c *fw.Ctx, n univ.SNode) {
+	rs := ref.Record("Top", ref.F("f", n.Schema), ref.F("z", ref.Prim("long")))
+	st := reflect.StructOf([]reflect.StructField{{Name: "F", Type: reflect.TypeOf(""), Tag: `json:"f"`}, {Name: "Z", Type: reflect.TypeOf(int64(0)), Tag: `json:"z"`}})
+	for _, count := range []int{1000, 20000} {
+		rec := ref.DRecord(ref.DString(strings.Repeat("same-text-", 3)), ref.DLong(sentinel))
+		enc := ref.Encode(rs, rec)
+		recs := make([]ref.Datum, count)
+		encs := make([][]byte, count)
+		for i := range recs {
+			recs[i], encs[i] = rec, enc
+		}
+		for _, codec := range []string{"null", "deflate", "snappy"} {
+			for _, comp := range [][]int{{count}, {count / 2, count - count/2}} {
+				f := fileCase{schema: rs, datums: recs, encoded: encs, comp: comp, codec: codec, mode: filedrv.ModeFull, encDesc: fmt.Sprintf("%d identical records", count)}
+				readAndCompare(c, f, f.bytes(), st, false, "compressible-block|"+codec, true)
+			}
+		}
+	}
+	c.Sample(map[string]interface{}{"kind": "highly compressible blocks", "records_per_file": []int{1000, 20000}})
+}
+
 func runNode3(c *fw.Ctx, idx int, n univ.SNode) {
+	if n.Chain == "compressible-block" {
+		runCompressible(c, n)
+		return
+	}
 	rs := ref.Record("Top", ref.F("f", n.Schema), ref.F("z", ref.Prim("long")))
 	ds := datums3(n)
 	targets := targets3(n)
@@ -174,7 +202,7 @@ func init() {
 			if tier == "thorough" {
 				d, cap = 3, "all encodings"
 			}
-			return fmt.Sprintf("files written by the reference writer (never by the library): record{f:S, z:long(sentinel)} for every S of nesting depth <=%d over leaves {boolean,int,long,float,double,bytes,string,fixed,record,date,timestamp-millis/micros,RFC3339 string} and constructors {array,map,record,[null,S],[S,null]} plus type-compatible multi/single-branch unions; per S: every datum of a bounded alphabet × EVERY legal serialisation (arrays/maps split into every composition of blocks, each with or without byte-size prefix; %s) × every compatible Go target (pointer indirection, int/int16/int32/int64, float32/64, null.*, time.Time, *[]T, *map) as single-record files, and 2–3-record files under every partition into file blocks × {null,deflate,snappy}, reader chunking rotating; oracle gv.Expect (value, or 'must be an error' for an integer that does not fit); non-trivial = a distinct (file, target) that was read and compared", d, cap)
+			return fmt.Sprintf("files written by the reference writer (never by the library): record{f:S, z:long(sentinel)} for every S of nesting depth <=%d over leaves {boolean,int,long,float,double,bytes,string,fixed,record,date,timestamp-millis/micros,RFC3339 string} and constructors {array,map,record,[null,S],[S,null]} plus type-compatible multi/single-branch unions; per S: every datum of a bounded alphabet × EVERY legal serialisation (arrays/maps split into every composition of blocks, each with or without byte-size prefix; %s) × every compatible Go target (pointer indirection, int/int16/int32/int64, float32/64, null.*, time.Time, *[]T, *map) as single-record files, files of 1000 and 20000 identical records (compression ratios far above 32:1), and 2–3-record files under every partition into file blocks × {null,deflate,snappy}, reader chunking rotating; oracle gv.Expect (value, or 'must be an error' for an integer that does not fit); non-trivial = a distinct (file, target) that was read and compared", d, cap)
 		},
 		Assumptions: []string{
 			"'does not fit is an error' is anchored on integers only; doubles are only decoded into float32 when exactly representable... (datums are exact float32 values or the comparison is value-exact after float32 conversion)",
